@@ -8,7 +8,7 @@ META = {
     'category': 'proof',
     'technique': 'Coq simulation proof: concrete model of OnceFunction (bytes, memcpy moves, inline/spill storage via nextPow2 / small-buffer pool / alignedMalloc, two lifetime '
                  'ledgers) against the documented ownership protocol, for all callable sizes/alignments (Z parameters) and all protocol-respecting operation sequences '
-                 '+ differential run of the real OnceFunction over a template-instantiated grid of 166 (size, alignment) pairs with serial-keyed lifetime-tracked callables, judged by vm_compute',
+                 '+ differential run of the real OnceFunction over a template-instantiated grid of 188 (size, alignment) pairs with serial-keyed lifetime-tracked callables, judged by vm_compute',
     'text': 'Kernel-checked, for every address oracle (variables 64-aligned, pool blocks aligned to their class, malloc arbitrary), every functor size/alignment (power-of-two '
             'alignment, size a multiple, <= 2^40) and every operation sequence that respects the documented protocol (construct from rvalue/lvalue functor, default construct, '
             'move-construct/-assign chains, operator(), cleanupNotRun(), drop): the callable is invoked exactly by operator() on its current owner and never twice '
@@ -19,7 +19,9 @@ META = {
             '[C39_move_transfers]; if neither operator() nor cleanupNotRun() happens the callable stays alive: exactly one live object per abandoned/pending callable, the leak '
             'the class documents [C39_neither_leaks].  The correspondence drives the real class through generated sequences, compares dispatch (which invoke function was '
             'installed, read through the private invoke_ pointer), every constructor/call/destructor event with its location (inline buffer of which variable / spill block / '
-            'temporary) and alignment, pool and malloc traffic, and the final ledger with the model, and evaluates the executable property against the protocol.',
+            'temporary) and alignment, pool and malloc traffic, and the final ledger with the model, and evaluates the executable property against the protocol; in addition every '
+            'byte of a callable is a function of its serial number and is verified whenever it is copied/moved from, invoked or destroyed (corrupt = 0 required) and every '
+            'object placed in a OnceFunction variable must lie inside its 56-byte buf_ (bounds read from the real object).',
     'note': 'Trusted: Coq kernel; harness/h_oncefn.cpp + harness/life.h (serial-keyed registry, --wrap=malloc/free, private members via #define private public); hand-written model '
             'Model/OnceFnModel.v (inline predicate sizeof<=56 && alignof<=64, kAllocSize, pool iff <=256) tied differentially over the whole grid; DISPENSO_DEBUG off (default). '
             'No axioms (Print Assumptions: closed).',
@@ -30,10 +32,10 @@ ASSUMPTIONS = [
     'sequences outside it are undefined in a release build (the model shows the use-after-destroy, Example C39_misuse_is_visible) and assert in a DISPENSO_DEBUG build (not exercised)',
     'functor types are trivially relocatable (dispenso contract for inline storage: moves are memcpy); sizes/alignments: alignof a power of two, sizeof a positive multiple of it, both <= 2^40',
     'oracle_ok: OnceFunction objects are 64-aligned (alignof(OnceFunction)=64), SmallBufferAllocator blocks are aligned to their size class (C41), ::malloc result arbitrary in [0, 2^63)',
-    'correspondence grid: 166 (size, alignment) pairs, sizes 1..768 incl. 55/56/57, 63/64/65, 127/128/129, 255/256/257, 511/512/513, alignments 1..256; DISPENSO_DEBUG not defined',
+    'correspondence grid: 188 (size, alignment) pairs, sizes 1..768 incl. every size 49..72 at alignments 1/2/4, 127/128/129, 255/256/257, 511/512/513, alignments 1..256; DISPENSO_DEBUG not defined',
 ]
 
-BOUNDARY_SIZES = {55, 56, 57, 63, 64, 65, 127, 128, 129, 255, 256, 257, 511, 512, 513, 600, 640, 768, 54, 58, 62, 66, 52, 60, 48, 72}
+BOUNDARY_SIZES = set(range(49, 73)) | {127, 128, 129, 255, 256, 257, 511, 512, 513, 600, 640, 768, 54, 58, 62, 66, 52, 60, 48, 72}
 
 
 class Sim:
@@ -136,7 +138,7 @@ def gen_cases(ctx, grid, n):
     return [c if isinstance(c, tuple) else (c, []) for c in cases]
 
 
-EV = re.compile(r'^([CcmDV])(-?\d+)@(T|B|I\d+)(!*)$')
+EV = re.compile(r'^([CcmDV])(-?\d+)@(T|B|I\d+)([!^]*)$')
 AL = re.compile(r'^(PA|PF|MA|MF)(\d+)$')
 CODE = {'C': 0, 'c': 1, 'm': 2, 'D': 3, 'V': 4, 'PA': 5, 'PF': 6, 'MA': 7, 'MF': 8}
 
@@ -159,7 +161,7 @@ def parse_result(ops, line):
             m = EV.match(t)
             if m:
                 loc = 0 if m.group(3) == 'T' else 1 if m.group(3) == 'B' else 2 + int(m.group(3)[1:])
-                evs.append(CODE[m.group(1)] + 16 * (2 * loc + (0 if m.group(4) else 1)) + 512 * (int(m.group(2)) + 1))
+                evs.append(CODE[m.group(1)] + 16 * (2 * loc + (0 if '!' in m.group(4) else 1)) + 512 * (int(m.group(2)) + 1))
                 continue
             m = AL.match(t)
             if m:
@@ -218,7 +220,10 @@ def run(ctx):
         if p is None:
             ctx.violation('harness failed on "%s": %s' % (ln, o), {'case': ln, 'output': o, 'cmd': "echo '%s' | %s" % (ln, exe)})
             continue
-        terms.append('(%d, %s, %s, %s)' % (NV, zl(coq_ops(ops, grid)), zl(p[0]), zl(p[1][:14])))
+        if len(p[1]) != 17:
+            ctx.violation('harness result line malformed on "%s": %s' % (ln, o), {'case': ln, 'output': o})
+            continue
+        terms.append('(%d, %s, %s, %s)' % (NV, zl(coq_ops(ops, grid)), zl(p[0]), zl(p[1][:14] + p[1][15:17])))
         kept.append((ops, ln, o))
     ctx.phase('run')
     imports = 'From DV Require Import Base.Corr Base.Life Model.OnceFnModel Model.C39Check.'
@@ -230,7 +235,7 @@ def run(ctx):
             ctx.broken.append('correspondence D(C39): the model no longer evaluates (see coq_eval_errors)')
             return
         verdicts += list(zip(res[0], sh_k))
-    hist = {0: 0, 1: 0, 2: 0, 3: 0}
+    hist = {0: 0, 1: 0, 2: 0, 3: 0, 5: 0}
     seen_types, distinct = set(), set()
     kinds = {}
     for v, (ops, ln, o) in verdicts:
@@ -241,8 +246,10 @@ def run(ctx):
                 seen_types.add(grid[x[2]])
         if any(x[0] in 'Mm' for x in ops):
             distinct.add(ln)
-        if v == 2:
-            ctx.violation('OnceFunction violates C39 (invoked exactly when called / destroyed exactly once / aligned storage / balanced ledger): "%s" -> %s' % (ln, o),
+        if v in (2, 5):
+            ctx.violation(('[the implementation also differs from the model: dispatch / location / events] ' if v == 5 else '') +
+                          'OnceFunction violates C39 (invoked exactly when called / destroyed exactly once / aligned storage inside buf_ / callable bytes intact / balanced ledger; '
+                          'last two numbers = corrupt, out-of-bounds): "%s" -> %s' % (ln, o),
                           {'case': ln, 'grid': [grid[x[2]] for x in ops if x[0] in 'Kk'], 'output': o, 'cmd': cmd})
         elif v == 1:
             ctx.broken.append('correspondence D(C39): implementation differs from the model (dispatch / event order / location / allocation traffic) on "%s" '
@@ -257,11 +264,12 @@ def run(ctx):
     ctx.cov['traces_validated_against_impl'] += hist[0]
     ctx.cov['grid_types_exercised'] = len(seen_types)
     ctx.cov['dispatch_histogram_over_grid'] = kinds
-    ctx.cov['rule'] = ('for EVERY grid type (166 (sizeof, alignof) pairs): rvalue construction + move construction + operator(), and lvalue construction + move assignment '
+    ctx.cov['rule'] = ('for EVERY grid type (188 (sizeof, alignof) pairs): rvalue construction + move construction + operator(), and lvalue construction + move assignment '
                        'into a default-constructed one + cleanupNotRun(); then random protocol-respecting sequences over 4 variables (2..14 operations, 60% of the functor types '
                        'from the inline/spill and size-class boundaries or over-aligned), a quarter of them with documented leaks (dropping / overwriting an owner).  '
                        'Non-trivial = contains a move; distinct = distinct sequences')
-    ctx.cov['verdict_histogram'] = {'agree_and_property_holds': hist[0], 'differs_but_property_holds': hist[1], 'property_fails': hist[2], 'outside_protocol(driver)': hist[3]}
+    ctx.cov['verdict_histogram'] = {'agree_and_property_holds': hist[0], 'differs_but_property_holds': hist[1], 'property_fails': hist[2] + hist[5], 'property_fails_and_differs_from_model': hist[5],
+                                    'outside_protocol(driver)': hist[3]}
     ctx.cov['ops_total'] = sum(len(ops) for ops, _, _ in kept)
     for ops, ln, o in kept[112:113] + kept[len(kept) - 3:len(kept) - 1]:
         ctx.sample({'ops': ln, 'types': [grid[x[2]] for x in ops if x[0] in 'Kk'], 'impl': o[:300]})
